@@ -11,16 +11,20 @@ META = {
                  "head word) over a C11 view model with orderings extracted from the running code; schedule "
                  "enumeration of the real index sets / pool allocator validated by TLC against a linearizable "
                  "index-set specification",
-    "text": "UisImpl.tla (one action per access of UniqueIndexSet::acquire/release, C11Mem) is model-checked for "
+    "text": "RuisImpl.tla (RobustUniqueIndexSet: cells + generation counter, acquire / release / lock-if-last, C11Mem, "
+            "orderings extracted, atomic-level conformance) is model-checked for Exclusive, HeldIsMarked, LockIsFinal, "
+            "LockedIsEmpty, NoAcquireAfterLock, FullOnlyWhenFull. "
+            "UisImpl.tla (one action per access of UniqueIndexSet::acquire/release, C11Mem) is model-checked for "
             "Exclusive, InRange, FreeListWellFormed, BorrowedExact, LockIsFinal with the extracted orderings; all "
             "preemption-bounded schedules of small programs on the real UniqueIndexSet, RobustUniqueIndexSet and "
             "PoolAllocator (2..3 threads, capacities 1..3) are executed under the deterministic scheduler and their "
             "call/return histories validated by TLC against IndexSetLin.tla (exclusive, bounded, fail only when full "
             "or locked, lock is final, recover returns exactly the dead owner's indices); atomic-level traces are "
             "validated against UisImpl.tla.",
-    "note": "Trusted: TLC, C11Mem simplifications, drop-in atomics, SC replay on x86, preemption bound. The robust "
-            "set and the pool allocator are covered at API level (real executions) and not yet by an "
-            "implementation-shaped weak-memory model. ABA tag domain is 4 in the model (2^16 in the code).",
+    "note": "Trusted: TLC, C11Mem simplifications, drop-in atomics, SC replay on x86, preemption bound. The robust set has "
+            "its own implementation-shaped model RuisImpl.tla (acquire / release / lock-if-last; recover is covered at API "
+            "level only), the pool allocator is covered at API level (it is built on UniqueIndexSet = UisImpl.tla). ABA tag "
+            "domain is 4 in the model (2^16 in the code).",
     "design_ref": "DESIGN.md 5 C09",
     "replay": True,
 }
@@ -227,6 +231,12 @@ def run(ctx):
                 raise vp.ToolError("must-fail instance AbaMod=1 was not refuted: model is vacuous")
     else:
         ctx.note("no ordering table extracted: weak-memory argument not applicable to this build")
+    # ---- the crash-robust set: implementation-shaped model with extracted orderings (checks/ruis_impl.py)
+    import importlib.util
+    spec = importlib.util.spec_from_file_location("ruis_impl", os.path.join(vp.VERIF, "checks", "ruis_impl.py"))
+    mod = importlib.util.module_from_spec(spec)
+    spec.loader.exec_module(mod)
+    mod.run_impl(ctx)
     ctx.coverage["orderings_extracted"] = tab_final
     ctx.coverage["rule"] = ("executions = schedules of small acquire/release/recover programs on the real index sets and "
                             "pool allocator; distinct = distinct schedules; states = TLC on UisImpl with extracted orderings")
